@@ -140,6 +140,8 @@ type cliRun struct {
 	gateHit     chan struct{}
 	gateRelease chan struct{}
 	gated       atomic.Bool
+	cutMode     bool
+	cutEvs      []cutEvC
 }
 
 func (r *cliRun) emit(e sEvent) {
@@ -292,9 +294,24 @@ func runCliScenario(sc cScenario) (evs []sEvent) {
 	return r.evs
 }
 
+type cutEvC struct {
+	ev  sEvent
+	end int
+}
+
+// emitSend logs a frame the scripted server has put into its write buffer.  Inside a "cut" step only the frames
+// that fit into the delivered prefix count as sent; that is decided when the prefix is delivered.
+func (r *cliRun) emitSend(ev sEvent) {
+	if r.cutMode {
+		r.cutEvs = append(r.cutEvs, cutEvC{ev: ev, end: r.wbuf.Len()})
+		return
+	}
+	r.emit(ev)
+}
+
 func (r *cliRun) flush(d *fdesc) {
 	if d != nil {
-		r.emit(sEvent{"k": "send", "f": *d})
+		r.emitSend(sEvent{"k": "send", "f": *d})
 	}
 	if r.noDeliver {
 		return
@@ -417,6 +434,7 @@ func (r *cliRun) quiesce() bool {
 }
 
 func (r *cliRun) logQ(q cqsnap, settled bool) {
+	settled = settled || q.gated // a write loop parked in a scheduler gate: nothing can be said about progress
 	g := sEvent{"k": "q", "settled": settled, "wlx": q.wlX, "rlx": q.rlX, "open": 0, "pending": 0, "queued": 0,
 		"closed": r.conn.Closed(), "canopen": r.conn.CanOpenStream()}
 	if r.v != nil {
@@ -776,7 +794,7 @@ func (r *cliRun) stepResp(st *cStep) {
 			r.fr.WriteContinuation(sid, eh, fg)
 			d.Ty, d.Len = 9, len(fg)
 		}
-		r.emit(sEvent{"k": "send", "f": d, "req": st.Req})
+		r.emitSend(sEvent{"k": "send", "f": d, "req": st.Req})
 		r.flush(nil)
 		r.quiesce()
 	}
@@ -816,7 +834,7 @@ func (r *cliRun) stepData(st *cStep) {
 			r.fr.WriteData(sid, st.ES && last, b)
 		}
 		d.Len = n + d.Pad
-		r.emit(sEvent{"k": "send", "f": d, "req": st.Req})
+		r.emitSend(sEvent{"k": "send", "f": d, "req": st.Req})
 		r.flush(nil)
 		r.quiesce()
 	}
@@ -838,7 +856,7 @@ func (r *cliRun) step(st *cStep) {
 		r.fr.WriteRSTStream(sid, xh2.ErrCode(st.Code))
 		d := newFdesc()
 		d.Ty, d.Sid, d.Len, d.Code = 3, int(sid), 4, int(st.Code)
-		r.emit(sEvent{"k": "send", "f": d, "req": st.Req})
+		r.emitSend(sEvent{"k": "send", "f": d, "req": st.Req})
 		r.flush(nil)
 		r.quiesce()
 	case "goaway":
@@ -862,7 +880,7 @@ func (r *cliRun) step(st *cStep) {
 		r.fr.WriteWindowUpdate(sid, st.Inc)
 		d := newFdesc()
 		d.Ty, d.Sid, d.Len, d.Inc = 8, int(sid), 4, int(st.Inc)
-		r.emit(sEvent{"k": "send", "f": d, "req": st.Req})
+		r.emitSend(sEvent{"k": "send", "f": d, "req": st.Req})
 		r.flush(nil)
 		r.quiesce()
 	case "settings":
@@ -930,7 +948,7 @@ func (r *cliRun) step(st *cStep) {
 		d.Ty, d.Sid, d.Len, d.Fl = st.Ty, int(sid), len(payload), st.Fl
 		d.ES = st.Fl&1 != 0 && (st.Ty == 0 || st.Ty == 1)
 		d.HBad = (st.Ty == 1 || st.Ty == 9) && len(payload) > 0
-		r.emit(sEvent{"k": "send", "f": d, "req": st.Req})
+		r.emitSend(sEvent{"k": "send", "f": d, "req": st.Req})
 		r.flush(nil)
 		r.quiesce()
 	case "burst":
@@ -942,17 +960,23 @@ func (r *cliRun) step(st *cStep) {
 		r.flush(nil)
 		r.quiesce()
 	case "cut":
-		r.noDeliver = true
+		r.noDeliver, r.cutMode, r.cutEvs = true, true, nil
 		for i := range st.Steps {
 			r.step(&st.Steps[i])
 		}
-		r.noDeliver = false
+		r.noDeliver, r.cutMode = false, false
 		b := append([]byte(nil), r.wbuf.Bytes()...)
 		r.wbuf.Reset()
 		k := st.Cut
 		if k > len(b) {
 			k = len(b)
 		}
+		for _, ce := range r.cutEvs {
+			if ce.end <= k {
+				r.emit(ce.ev)
+			}
+		}
+		r.cutEvs = nil
 		r.emit(sEvent{"k": "note", "what": "cut", "sid": k})
 		if k > 0 {
 			r.b.Write(b[:k])
